@@ -70,6 +70,16 @@ type world struct {
 	skips   []uint64
 }
 
+// worldSkips: worlds the node did not get into the planned shape (a block refused, another best block, an
+// inconsistent main-chain index). Block acceptance and chain selection are C11-C13's subject; the statement
+// about responses cannot be examined on such a world: it is left out and the run reported capped.
+var worldSkips []string
+
+func skipWorld(name, format string, a ...interface{}) *world {
+	worldSkips = append(worldSkips, fmt.Sprintf("world %s: could not be set up: ", name)+fmt.Sprintf(format, a...))
+	return nil
+}
+
 func unknownHash() bc.Hash { return bc.NewHash([32]byte{0xee, 0x33, 0xee, 0x33, 0x01}) }
 
 // buildWorld makes a node with a main chain of h blocks and a side chain of 3 blocks forking
@@ -80,7 +90,7 @@ func buildWorld(netw *labnet.Net, name string, h, fork int, reorged bool, locHei
 	sideB := netw.Chain(mainB[fork-1], sideLen, 1)
 	nd, err := labnet.NewNode(crashkv.New())
 	if err != nil {
-		ev.Fatal("new node: %v", err)
+		return skipWorld(name, "new node: %v", err)
 	}
 	var order []*labnet.B
 	if reorged {
@@ -93,7 +103,7 @@ func buildWorld(netw *labnet.Net, name string, h, fork int, reorged bool, locHei
 	}
 	for _, b := range order {
 		if orphan, err := nd.Chain.ProcessBlock(b.Block); err != nil || orphan {
-			ev.Fatal("world %s: block at height %d not accepted: orphan=%v err=%v", name, b.Height, orphan, err)
+			return skipWorld(name, "block at height %d not accepted: orphan=%v err=%v", b.Height, orphan, err)
 		}
 	}
 	w := &world{Name: name, node: nd, height: uint64(h), fork: uint64(fork), byHash: map[bc.Hash]*ent{}, direct: direct}
@@ -122,25 +132,25 @@ func buildWorld(netw *labnet.Net, name string, h, fork int, reorged bool, locHei
 	// factory's main chain, and InMainChain agrees with that on every hash of the alphabet.
 	best := nd.Chain.BestBlockHeader()
 	if best.Hash() != mainEnt[h].Hash || best.Height != uint64(h) {
-		ev.Fatal("world %s: best block is not the tip of the longer chain (height %d)", name, best.Height)
+		return skipWorld(name, "best block is not the tip of the longer chain (height %d)", best.Height)
 	}
 	cur := best
 	for cur.Height > 0 {
 		if cur.Hash() != w.mainAt[cur.Height] {
-			ev.Fatal("world %s: parent walk leaves the factory's main chain at height %d", name, cur.Height)
+			return skipWorld(name, "parent walk leaves the factory's main chain at height %d", cur.Height)
 		}
 		p := cur.PreviousBlockHash
 		cur, err = nd.Chain.GetHeaderByHash(&p)
 		if err != nil {
-			ev.Fatal("world %s: parent walk: %v", name, err)
+			return skipWorld(name, "parent walk: %v", err)
 		}
 	}
 	if cur.Hash() != gen.Hash {
-		ev.Fatal("world %s: parent walk does not end at genesis", name)
+		return skipWorld(name, "parent walk does not end at genesis")
 	}
 	for _, e := range append(append(append([]ent{}, mainEnt...), sideEnt...), unk, zero) {
 		if nd.Chain.InMainChain(e.Hash) != e.Main {
-			ev.Fatal("world %s: Chain.InMainChain(%s) = %v, the parent walk says %v (property C11)", name, e.Name, !e.Main, e.Main)
+			return skipWorld(name, "Chain.InMainChain(%s) = %v, the parent walk says %v (property C11)", e.Name, !e.Main, e.Main)
 		}
 	}
 
@@ -274,6 +284,7 @@ type stats struct {
 	maxItems   int
 	samples    map[string]sample
 	viols      map[string]viol
+	capped     string // wire cases left out: the node's own codec refused a well-formed message (C04's subject)
 }
 
 type sample struct {
@@ -673,6 +684,7 @@ func (j job) run(st *stats, worker int) {
 				var its []item
 				var err error
 				var pan interface{}
+				undecodable := ""
 				p.sent = p.sent[:0]
 				max := uint64(protoMaxHeaders)
 				func() {
@@ -685,7 +697,8 @@ func (j job) run(st *stats, worker int) {
 						bz = wire.BinaryBytes(struct{ msgs.BlockchainMessage }{msgs.NewGetBlocksMessage(hashPtrs(w, list), &stopHash)})
 					}
 					if e := w.sync.Receive(p, bz); e != nil {
-						ev.Fatal("request bytes did not decode: %v", e)
+						undecodable = fmt.Sprintf("%s request, encoded by the repository's own constructor, did not decode: %v", kindName[j.kind], e)
+						return
 					}
 					for _, m := range p.sent {
 						wrapped, ok := m.(struct{ msgs.BlockchainMessage })
@@ -712,8 +725,14 @@ func (j job) run(st *stats, worker int) {
 						}
 					}
 				}()
-				if pan == nil && err != nil {
-					ev.Fatal("response did not decode: %v", err)
+				if pan == nil && undecodable == "" && err != nil {
+					undecodable = fmt.Sprintf("%s response did not decode: %v", kindName[j.kind], err)
+				}
+				if pan == nil && undecodable != "" {
+					if st.capped == "" {
+						st.capped = fmt.Sprintf("world %s, wire handlers: could not be set up: %s", w.Name, undecodable)
+					}
+					continue
 				}
 				w.judge(st, seq, j.kind, list, j.stopI, skip, max, 0, its, nil, pan, len(p.sent))
 			}
@@ -747,6 +766,16 @@ func main() {
 			buildWorld(netw, "main70+side7-9(never-best),blocks+handlers-only", 70, 6, false, []int{1, 6, 7, 70}, []int{0, 1, 6, 7, 62, 63, 64, 65, 66, 69, 70}, false, workers))
 	}
 
+	if len(worldSkips) > 0 {
+		run.Capped(strings.Join(worldSkips, "; "))
+		kept := worlds[:0]
+		for _, w := range worlds {
+			if w != nil {
+				kept = append(kept, w)
+			}
+		}
+		worlds = kept
+	}
 	var jobs []job
 	base := int64(0)
 	for _, w := range worlds {
@@ -801,6 +830,9 @@ func main() {
 		}
 		for k, v := range st.outcomes {
 			tot.outcomes[k] += v
+		}
+		if st.capped != "" {
+			run.Capped(st.capped)
 		}
 		for k, v := range st.viols {
 			if old, ok := tot.viols[k]; !ok || v.seq < old.seq {
